@@ -10,7 +10,11 @@ property's own predicate on the implementation's output:
     `None` — computed here with plain list functions, not with the model's hash map;
   * constants, literals, single valuations, thresholds: the truth table of the observed array (by `evalF`) is
     the constant / the literal / the single valuation / "exactly (at most) k of the DISTINCT listed variables are
-    true", and the array passes the executable canonicity test `isCanon`.
+    true". Canonicity of the arrays is NOT part of this property's statement (it is C02's): a non-canonical array
+    with the right function is a model disagreement only.
+Clauses follow the statement strictly; outside it (agreement with the model only): the limit on the number of names,
+the naming scheme `x_i` of `new_anonymous`, the panic of `mk_*_by_name` on unknown names, foreign variables, canonical
+form, and the observation `hang`.
 Names travel hex-encoded (`h<utf8 bytes>`).
 -/
 namespace B.Drive.C16
@@ -64,10 +68,13 @@ def checkSet (names probes : List String) (fields : List String) : Option String
     else none
   | _ => some "fields"
 
-/-- `rejected` must be equivalent to "duplicate, forbidden character or too many" -/
+/-- "duplicate or forbidden names are rejected" (any panic counts); an accepted list maps bijectively. The limit on
+    the number of names is not in the statement: lists longer than `maxLen` are compared with the model only. -/
 def checkCtor (names probes : List String) (maxLen : Nat) (obs : List String) (skip : Nat) : Option String :=
-  let bad := hasDup names || names.any forbidden || names.length > maxLen
+  let bad := hasDup names || names.any forbidden
+  if names.length > maxLen then none else
   match obs with
+  | ["hang"] => none
   | ["panic"] => if bad then none else some "valid-names-rejected"
   | "ok" :: fields =>
     if bad then some "invalid-names-accepted"
@@ -102,7 +109,6 @@ def checkBdd (field : String) (n x : Nat) (f : (Nat → Bool) → Bool) (what : 
   | none => some (what ++ ":outcome:" ++ field)
   | some A =>
     if !semIs A n x f then some (what ++ ":function")
-    else if !isCanon A then some (what ++ ":not-canonical")
     else none
 
 def firstFail (xs : List (Option String)) : Option String := xs.findSome? id
@@ -143,7 +149,18 @@ def handle (key : String) (ins obs : List String) : Verdict :=
       let model := match newAnonymous k with
         | .ok vs => " ".intercalate ("ok" :: observeSet vs probes)
         | _ => "panic"
-      { agree := model == " ".intercalate obs, model, fail := checkCtor names probes 65533 obs 0,
+      -- the naming scheme `x_i` is not in the statement: the bijection clauses are evaluated on the names the set
+      -- itself reports (pairwise distinct, as many as variables)
+      let fail := match obs with
+        | ["ok", _, _, _, varNames, _] =>
+          match decNames? varNames with
+          | some reported =>
+            if reported.length != k then some "num_vars" else if hasDup reported then some "names-not-distinct"
+            else checkSet reported probes (obs.drop 1)
+          | none => some "fields"
+        | _ => none
+      let _ := names
+      { agree := model == " ".intercalate obs, model, fail,
         nontrivial := k ≥ 2, tags := ["anon", s!"len{k}"] }
     | _, _ => Verdict.bad "args"
   | "C16.limit", [ctor, count] =>
@@ -159,15 +176,15 @@ def handle (key : String) (ins obs : List String) : Verdict :=
         | .ok vs => " ".intercalate ["ok", toString vs.numVars, showOptNat (vs.varByName last),
             match vs.nameOf (count - 1) with | .ok s => encName s | _ => "panic"]
         | _ => "panic"
-      -- predicate: an accepted set is faithful on the probed variable; fewer than 65 534 distinct valid names
-      -- must be accepted (the exact position of the limit is compared with the model only)
+      -- predicate: an accepted set is faithful on the probed variable; where the limit lies (and whether a long list
+      -- is rejected at all) is not in the statement: compared with the model only
       let fail := match obs with
-        | ["panic"] => if count < 65534 then some "valid-names-rejected" else none
         | ["ok", n, idx, nm] =>
           if n != toString count then some "num_vars"
+          else if ctor == "anon" then none
           else if idx != toString (count - 1) then some "var_by_name"
           else if nm != encName last then some "name_of" else none
-        | _ => some "outcome"
+        | _ => none
       { agree := model == " ".intercalate obs, model, fail, nontrivial := true, tags := ["limit", ctor] }
     | none => Verdict.bad "args"
   | "C16.const", [n] =>
@@ -202,7 +219,7 @@ def handle (key : String) (ins obs : List String) : Verdict :=
       let fail := match valid, posOf names name with
         | true, some x => firstFail [checkBdd a names.length x (fun v => v x) "mk_var_by_name",
             checkBdd b names.length x (fun v => !v x) "mk_not_var_by_name"]
-        | _, _ => if a == "panic" && b == "panic" then none else some "unknown-name-accepted"
+        | _, _ => none  -- the panic on an unknown name is documented, but not part of the statement
       { agree := model == " ".intercalate obs, model, fail, nontrivial := (posOf names name).isSome,
         tags := ["litname", if (posOf names name).isSome then "known" else "unknown"] }
     | _, _, _ => Verdict.bad "args"
@@ -223,7 +240,6 @@ def handle (key : String) (ins obs : List String) : Verdict :=
             if !evalArr A w then some "function:own-valuation"
             else if (List.range n).any fun j => evalArr A (fun i => if i == j then !w i else w i) then some "function:neighbour"
             else if evalArr A (fun i => !w i) then some "function:complement" else none
-      let fail := fail <|> (match parseArr? r with | some A => if isCanon A then none else some "not-canonical" | none => none)
       { agree := model == r, model, fail, nontrivial := n ≥ 1, tags := ["val", if n ≤ maxTT then "tt" else "sampled"] }
     | _ => Verdict.bad "args"
   | "C16.exactly", [n, k, vars] | "C16.upto", [n, k, vars]
